@@ -12,12 +12,13 @@ func init() {
 		Level:       "Sound static check of the structural clause: no storage error is dropped and nothing is granted on any storage call's error edge, for every call site in pkg/op. Whether the response is well-formed on that edge is C09's typestate; status codes are not decided.",
 		Note:        "Trusted: go/types+go/cfg. Grant sinks and the two reviewed fall-backs are tables in the checker.",
 		Technique:   "static analysis: per-call-site error-edge reachability on the path-sensitive must-facts dataflow (go/cfg), storage calls resolved via go/types interface method identity",
-		Rules:       []string{"E5.R-storage", "E5.R-discard"},
+		Rules:       []string{"E5.R-storage", "E5.R-discard", "E5.R-examined"},
 		Floors:      []Floor{{"E5.R-storage", 40}},
 		Run: func(c *Ctx) {
 			RunStorageErrors(c)
 			RunE1(c, "C10", append([]Ob{}, sharedObs["C10"]...)) // error redirects go only to a validated URI (obligations owned by C03)
 			RunDiscard(c, "C10", []string{"op"})
+			RunErrorsExamined(c, []string{"op"}) // an error stored and never looked at (e.g. from a wrapper around a storage call) is a swallowed storage failure
 		},
 	})
 }
